@@ -302,13 +302,19 @@ ADDENDA11 = {
     'C03': ' Directory trees with pattern characters and leading dots in their names.',
     'C04': ' Eqchain family: where clauses of two or three equality terms on `selected` incl. one attribute constrained twice '
            '(equal / different values, literals / variables, both operand orders) in select many / any / related by.',
+    'C05': ' Shadow family (locals named like constants / enumerators of the host, every declaration form x every kind of read) and rescope '
+           'family (a name declared in a nested block and again afterwards with another type, used type-specifically; 11 placements).',
+    'C15': ' Parameter-name family (476 names from the library\'s own code objects as parameters of every kind of callable, from Python and OAL) '
+           'and shadow family (locals named like functions, constants, enumerations, external entities, classes; read-call-read histories).',
+    'C17': ' A palette of elements every use of which is a fresh equal copy.',
     'C07': ' Names family: every non-keyword token name of the grammar and 33 keyword-like names as identifier in fifteen name positions.',
     'C08': ' Operation bodies whose keyword operators have operands with an effect are compared across spellings.',
     'C10': ' Null family: None, the null value of the type and a non-null value written under every spelling to identifying, plain and '
            'referential attributes of every core type; reads compared by type and value, filters with every null-ish value under every spelling.',
     'C11': ' Late family: the associations are defined and formalized by an operation of the history, after any mix of creations; '
            'identifiers also cover referential attributes.',
-    'C12': ' The statement pool holds a class without attributes, associations to and from it, a row and an identifier of it.',
+    'C12': ' The statement pool holds a class without attributes, associations to and from it, a row and an identifier of it; value flips '
+           'include strings whose content looks like another lexical class.',
     'C18': ' The chunks carry a two-attribute-key association; an identifier listing the referred attributes the other way round is '
            'added to one built metamodel.',
     'C19': ' Names family: attribute names drawn from the identifiers of the library\'s own code objects (209 quick / 351 thorough) in every '
